@@ -280,6 +280,32 @@ def near_miss_pairs(rng, budget):
     a = G.Mol([G._atom("C", 0), G._atom("N", 1), G._atom("O", 2)], [(0, 1, 1), (1, 2, 1)], "CNO")
     b = G.Mol([G._atom("C", 0), G._atom("N", 1), G._atom("O", 2)], [(0, 2, 1), (2, 1, 1)], "CON")
     out.append((a, b))
+    # bond-free molecules that differ only in a label (single atoms, ion pairs, gas mixtures)
+    for sym in ("He", "H", "C", "Cl"):
+        a = G.Mol([G._atom(sym, 0)], [], "atom")
+        for lab in ({"mass": 3}, {"rad": 2}, {"mass": 2, "rad": 1}):
+            b = a.copy()
+            b.atoms[0].update(lab)
+            b.family = "atom+" + ",".join(lab)
+            out.append((a, b))
+    a = G.Mol([G._atom("Na", 0), G._atom("Cl", 1)], [], "ion-pair")
+    b = a.copy(); b.atoms[1]["mass"] = 37; b.family = "ion-pair-37Cl"
+    c = a.copy(); c.atoms[0]["mass"] = 22; c.family = "ion-pair-22Na"
+    out += [(a, b), (a, c), (b, c)]
+    # random molecules with one identity label added, removed or changed
+    for _ in range(25 * budget):
+        m = G.gen_mol(rng, max_n=10, family=rng.choice(["isolated", "random_sparse", "tree", "two_components", "star"]))
+        m2 = m.copy()
+        i = rng.randrange(m.n())
+        key = rng.choice(["mass", "rad"])
+        old = m2.atoms[i].get(key)
+        new = rng.choice([v for v in (None, 1, 2, 3, 13) if v != old])
+        if new is None:
+            m2.atoms[i].pop(key, None)
+        else:
+            m2.atoms[i][key] = new
+        m2.family = m.family + "+label-change"
+        out.append((m, m2))
     # random: edge move preserving degree sequence (2-switch)
     for _ in range(20 * budget):
         m = G.gen_mol(rng, max_n=12, family=rng.choice(["random_sparse", "tree", "cycle", "prism", "ladder"]))
@@ -546,6 +572,7 @@ def compare_read(g: nx.Graph, m: G.Mol, coord_tol=1e-9):
 
 def work_C07(run, rng, budget):
     for m in molecules(run, rng, 150 * budget, max_n=14):
+        maybe_zero_d(run, m, rng, 0.15)
         for k in range(2):
             text, info = RD.render_v3000(m, rng)
             for key, v in info["opts"].items():
@@ -605,10 +632,19 @@ def work_C07(run, rng, budget):
 # C08
 # =====================================================================================
 
+def maybe_zero_d(run, m, rng, p=0.25):
+    """a '0D' file: no coordinates at all, so atoms of one element have character-identical atom lines"""
+    if rng.random() < p:
+        for a in m.atoms:
+            a["x"] = a["y"] = a["z"] = 0.0
+        run.stats["zero_d_coordinates"] += 1
+
+
 def work_C08(run, rng, budget):
     for m in molecules(run, rng, 150 * budget, max_n=14):
         for a in m.atoms:  # V2000 fixed columns: coordinates with 4 decimals
             a["x"], a["y"], a["z"] = round(a["x"], 4), round(a["y"], 4), round(a["z"], 4)
+        maybe_zero_d(run, m, rng)
         t2, i2 = RD.render_v2000(m, rng)
         t3, i3 = RD.render_v3000(m, rng, {"star": False})
         for key, v in i2["opts"].items():
@@ -777,6 +813,27 @@ def work_C10(run, rng, budget):
             if real.startswith("ERR ") and real != "ERR TucanParserException":
                 key = "rejected-with-foreign-exception"
                 run.fail(key, f"{e[:80]!r}: {real}", {"string": e})
+    # every element symbol alone and every pair of neighbours in the periodic table, against an independent
+    # periodic table (harness/gen.py): the atomic numbers and the numbering by increasing atomic number
+    for i, sym in enumerate(G.ELEMENTS):
+        texts = [f"{sym}/"]
+        if i + 1 < len(G.ELEMENTS):
+            a, b = sym, G.ELEMENTS[i + 1]
+            first, second = TG.hill_order([a, b])
+            texts.append(f"{first}{second}/(1-2)/(1:mass=7)")
+        for t in texts:
+            line, real, info = R.op_parse(t)
+            run.corr(line, real, "observable", meta={"string": t})
+            run.case(("C10el", t), True)
+            run.stats["element_table_probe"] += 1
+            g = info.get("graph")
+            if g is None:
+                run.fail("valid-sentence-rejected", f"{t!r}: {real}", {"string": t})
+                continue
+            want = sorted(__import__("re").findall(r"[A-Z][a-z]?", t.split("/")[0]), key=lambda x: G.Z[x])
+            got = [(g.nodes[k].get("element_symbol"), g.nodes[k].get("atomic_number")) for k in sorted(g.nodes)]
+            if got != [(x, G.Z[x]) for x in want] or (len(want) == 2 and g.nodes[0].get("mass") != 7):
+                run.fail("parsed-graph-differs-from-denotation", f"{t!r}: atoms {got}", {"string": t})
     # boundary families
     boundary = ["", "/", "//", "C", "C/", "C//", "/(1-2)", "H/", "HC/", "CH/", "HCl/", "ClH/", "C1/", "C2/", "C01/", "C10/", "C0/",
                 "CH4/(1-2)(1-3)(1-4)(1-5)", "CH4/(1-2)(1-3)(1-4)(1-6)", "C2/(1-1)", "C2/(1-2)(2-1)(1-2)", "C2/(1-02)", "C2/(0-1)",
